@@ -43,13 +43,18 @@ func guardedRun(m *Monitor, j *rt.Job, seed uint64, rec *rt.Rec) {
 					}
 				}
 				rec.Violate(os.Args[1]+"/unexpected-panic/"+fn, "library call ended in an unexpected panic: "+msg+" in "+fn,
-					map[string]interface{}{"kind": "job", "job": j, "seed": seed}, "no panic", msg)
+					jobCase(j), "no panic", msg)
 			} else {
 				rec.Inconclusive("monitor panicked outside the library: " + msg + "\n" + st)
 			}
 		}
 	}()
 	m.Run(j, seed, rec)
+}
+
+// jobCase is the replay case "re-run this whole job with the same seed".
+func jobCase(j *rt.Job) map[string]interface{} {
+	return map[string]interface{}{"kind": "job", "job": j, "seed": j.Args["_seed"]}
 }
 
 // replayJob re-runs a whole job and reports whether it still yields a violation.
@@ -133,6 +138,10 @@ func main() {
 		}
 		seed, _ := strconv.ParseUint(os.Args[5], 10, 64)
 		rec := rt.NewRec(j.ID)
+		if j.Args == nil {
+			j.Args = map[string]interface{}{}
+		}
+		j.Args["_seed"] = float64(seed)
 		guardedRun(m, &j, seed, rec)
 		if err := rec.Write(os.Args[4]); err != nil {
 			fmt.Fprintln(os.Stderr, err)
